@@ -73,9 +73,9 @@ NSpec == NInit /\ [][NNext]_nvars
 
 \* ---- invariants ---------------------------------------------------------------
 \* the loop invariant: what has been emitted plus the open pair covers exactly what was consumed
-LoopInvariant == phase = "build" => Covered(Append(pairs, cur)) = { input[j] : j \in 1..(idx - 1) }
+LoopInvariant == phase = "build" => NackCovered(Append(pairs, cur)) = { input[j] : j \in 1..(idx - 1) }
 \* none missing, none extra
-CoverExact == phase \in {"built", "range", "done"} => Covered(pairs) = SeqSet(input)
+CoverExact == phase \in {"built", "range", "done"} => NackCovered(pairs) = SeqSet(input)
 \* the machine computes the function the trace specification uses
 BuilderRefines == phase \in {"built", "range", "done"} => pairs = RefPairs(input)
 \* progress: the cursor only moves forward and is bounded by the input
